@@ -228,10 +228,10 @@ class Actor:
         cancelled in the middle of its stream by a `drop` operation."""
         with anyio.CancelScope() as scope:
             self.extra_scope = scope
-            async with self.ctx.resource_added.stream_events(max_queue_size=100) as stream:
+            # a SLOW subscriber: one-slot queue, never reads (its queue is full after the first event)
+            async with self.ctx.resource_added.stream_events(max_queue_size=1):
                 task_status.started()
-                async for ev in stream:
-                    self.extra_events.append(ev)
+                await anyio.sleep_forever()
 
     async def run(self, tg, *, task_status):
         try:
@@ -768,8 +768,12 @@ class Engine:
 
 
 def run_history(ops, *, listen=False, final_probes=True, check_events=False, check_teardown=False):
+    import warnings
+
     eng = Engine(ops, listen=listen, final_probes=final_probes, check_events=check_events)
-    _, exc, k = run(eng.main, max_steps=50000)
+    with warnings.catch_warnings():
+        warnings.simplefilter("ignore")  # SignalQueueFull of the deliberately slow listener
+        _, exc, k = run(eng.main, max_steps=50000)
     if exc is not None:
         raise exc
     div = eng.divergence
